@@ -3,7 +3,7 @@
    (adds with arbitrary peer-manager facts and probe outcomes, adds/removes without node id, removals),
    started from the single bucket [0, 2^384); [op_valid] only says node ids are 48-byte strings. *)
 From Coq Require Import NArith ZArith List Bool.
-From LV Require Import Model.C11 Model.C11Spec Proofs.C11.
+From LV Require Import Model.C11 Model.C11Spec Proofs.C11Sys Proofs.C11More Proofs.C11.
 Import ListNotations.
 Local Open Scope N_scope.
 
@@ -76,6 +76,69 @@ Theorem C11_closer_admitted : forall own ops p e,
 Proof. exact closer_admitted. Qed.
 Print Assumptions C11_closer_admitted.
 
+(* remove_peer removes exactly the given contact (same id, address and port) and nothing else. *)
+Theorem C11_remove_exact : forall own ops p,
+  own < M -> Forall op_valid ops -> pid p < M ->
+  snd (step true own (run own ops) (Remove p)) = ORemove true /\
+  forall x, In x (contacts (fst (step true own (run own ops) (Remove p)))) <-> In x (contacts (run own ops)) /\ x <> p.
+Proof. exact remove_exact. Qed.
+Print Assumptions C11_remove_exact.
+
+(* get_peer finds the contact with the given node id exactly when the table knows one. *)
+Theorem C11_get_peer_exact : forall own ops id,
+  own < M -> Forall op_valid ops -> id < M ->
+  exists r, get_peer own (run own ops) id = Some r /\
+    match r with
+    | Some q => In q (contacts (run own ops)) /\ pid q = id
+    | None => forall q, In q (contacts (run own ops)) -> pid q <> id
+    end.
+Proof. exact get_peer_exact. Qed.
+Print Assumptions C11_get_peer_exact.
+
+(* Among several buckets none is empty: _join_buckets always runs to completion. *)
+Theorem C11_no_empty_bucket : forall own ops,
+  own < M -> Forall op_valid ops ->
+  (length (run own ops) <= 1)%nat \/ Forall (fun b => bpeers b <> []) (run own ops).
+Proof. exact no_empty_bucket. Qed.
+Print Assumptions C11_no_empty_bucket.
+
+(* One add_peer call sends at most one probe. *)
+Theorem C11_single_probe : forall own ops p e,
+  own < M -> Forall op_valid ops -> pid p < M ->
+  match snd (step true own (run own ops) (Add p e)) with
+  | OAdd _ probed => (length probed <= 1)%nat
+  | _ => False
+  end.
+Proof. exact single_probe. Qed.
+Print Assumptions C11_single_probe.
+
+(* A rejected newcomer (add_peer returns False) is not in the table, nothing new appears, and every contact at
+   another address is still there. *)
+Theorem C11_rejected_unchanged : forall own ops p e probed,
+  own < M -> Forall op_valid ops -> pid p < M ->
+  snd (step true own (run own ops) (Add p e)) = OAdd (Ret false) probed ->
+  let t' := fst (step true own (run own ops) (Add p e)) in
+  (forall x, In x (contacts t') -> pid x <> pid p) /\
+  (forall x, In x (contacts t') -> In x (contacts (run own ops))) /\
+  (forall x, In x (contacts (run own ops)) -> pkey x <> pkey p -> In x (contacts t')).
+Proof. exact rejected_unchanged. Qed.
+Print Assumptions C11_rejected_unchanged.
+
+(* The table driven by the modelled PeerManager (report_failure / report_last_replied / report_last_requested,
+   contact_triple_is_good, get_last_replied) and clock is one of the histories quantified over above, so every
+   theorem of this file applies to it; spelled out for well-formedness. *)
+Theorem C11_pm_refines : forall own sops,
+  Forall sop_valid sops -> exists ops, Forall op_valid ops /\ s_tab (sys_run own sops) = run own ops.
+Proof. exact pm_refines. Qed.
+Print Assumptions C11_pm_refines.
+
+Theorem C11_sys_wellformed : forall own sops,
+  own < M -> Forall sop_valid sops ->
+  chain 0 (s_tab (sys_run own sops)) M /\ Forall (bucket_ok own) (s_tab (sys_run own sops)) /\
+  NoDup (map pid (contacts (s_tab (sys_run own sops)))) /\ NoDup (map pkey (contacts (s_tab (sys_run own sops)))).
+Proof. exact sys_wellformed. Qed.
+Print Assumptions C11_sys_wellformed.
+
 (* The OLD _join_buckets (range_max = midpoint - 1), same model with rp = false: after the history gap_ops the
    distance 2^382 + 2^381 - 1 is in no bucket and adding that id raises IndexError; the repaired code covers it
    once and admits the contact. *)
@@ -100,4 +163,13 @@ Proof. vm_compute. reflexivity. Qed.
 Example C11_ex_probe :
   let far := map (fun i => Add (pk (2 ^ 383 + i) i) env0) [1; 2; 3; 4; 5; 6; 7; 8] in
   snd (step true 0 (run 0 far) (Add (pk (2 ^ 383 + 9) 9) env0)) = OAdd (Ret false) [pk (2 ^ 383 + 1) 1].
+Proof. vm_compute. reflexivity. Qed.
+(* the three nearest to key 3 for requester 2 among the twelve contacts of that table *)
+Example C11_ex_find : map pid (find_close 0 (run 0 gap_ops) 3 3 (Some 2)) = [3; 1; 4].
+Proof. vm_compute. reflexivity. Qed.
+(* the reading of "newcomer at a different address" fixed here: a re-add of a KNOWN node id from another address is
+   an address update of that contact (KBucket.add_peer replaces the entry, no probe), not a displacement *)
+Example C11_ex_same_id_new_address :
+  step true 0 (run 0 [Add (mkPeer 7 100 4444) env0]) (Add (mkPeer 7 200 4444) env0)
+  = ([mkB 0 M [mkPeer 7 200 4444]], OAdd (Ret true) []).
 Proof. vm_compute. reflexivity. Qed.
